@@ -15,7 +15,7 @@ pub static PROP: Prop = Prop {
     title: "Finite functions form a category with coproducts and coequalizers",
     check,
     max_tape: (60, 110),
-    cases: (300_000, 5_000_000),
+    cases: (600_000, 6_000_000),
     both_profiles: false,
     rule: "tables of length 0..8 (thorough 0..14) over codomains 0..8, parallel / composable / non-composable pairs, (sizes, index map) pairs, (surjection, labels) pairs consistent or inconsistent on fibres; one operation group per case, compared with explicit loops on Vec<usize>; non-trivial = source >= 2 (for coequalizers additionally >= 1 pair with f(i) != g(i) and >= 2 resulting classes); distinct = hash of the generated data",
     assumptions: &["SemifiniteArrow's todo!() coproduct methods and its Identity variant are outside the statement and not exercised"],
